@@ -183,7 +183,7 @@ Section Confinement.
     destruct (is_dot n); [inversion H; subst; exact Hd|].
     destruct (is_dotdot n) eqn:Hdd.
     - inversion H; subst. apply Hpar. destruct Hr as [Hr | Hr]; [exact Hr | discriminate].
-    - destruct (NAME_MAX <? len n); [discriminate|]. destruct dead; [discriminate|].
+    - destruct dead; [discriminate|]. destruct (NAME_MAX <? len n); [discriminate|].
       destruct (ent_find n ents) as [x|] eqn:Hf; [|discriminate]. inversion H; subst.
       destruct (ent_find_In n ents i Hf) as [m Hm]. apply (Hch m i Hm).
   Qed.
@@ -196,7 +196,7 @@ Section Confinement.
     destruct (i_kind dv') eqn:Hk; try discriminate.
     destruct (negb (may c dv' MAY_X)); [discriminate|].
     destruct (is_dot n || is_dotdot n); [discriminate|].
-    destruct (NAME_MAX <? len n); [discriminate|]. destruct dead; [discriminate|].
+    destruct dead; [discriminate|]. destruct (NAME_MAX <? len n); [discriminate|].
     destruct (ent_find n ents); [discriminate|].
     destruct (may c dv' MAY_W); [|discriminate]. inversion H; subst. split; [reflexivity|]. rewrite Hk. reflexivity.
   Qed.
@@ -338,7 +338,7 @@ Section Confinement.
     destruct (i_kind dv') eqn:Hk; try discriminate.
     destruct (negb (may c dv' MAY_X)); [discriminate|].
     destruct (is_dot n || is_dotdot n); [discriminate|].
-    destruct (NAME_MAX <? len n); [discriminate|]. destruct dead; [discriminate|].
+    destruct dead; [discriminate|]. destruct (NAME_MAX <? len n); [discriminate|].
     destruct (ent_find n ents) as [x|] eqn:Hf; [|discriminate].
     destruct (may c dv' MAY_W); [|discriminate]. inversion H; subst. split; [reflexivity|].
     unfold ents_of. rewrite Hk. apply (ent_find_In n ents i Hf).
@@ -428,11 +428,13 @@ Section Confinement.
     destruct (negb (may c odv MAY_X) || negb (may c ndv MAY_X)); [apply (Hno _ H)|].
     destruct (is_dot on || is_dotdot on); [apply (Hno _ H)|].
     destruct (is_dot nn || is_dotdot nn); [apply (Hno _ H)|].
+    destruct odead; [apply (Hno _ H)|].
     destruct (NAME_MAX <? len on); [apply (Hno _ H)|].
     destruct (if odead then None else ent_find on oents) as [src|] eqn:Hsrcf; [|apply (Hno _ H)].
     assert (Hsrc : inE src).
     { destruct odead; [discriminate|]. destruct (ent_find_In on oents src Hsrcf) as [m Hm].
       apply (closed_children od odv m src Hcod). unfold ents_of. rewrite Hko. exact Hm. }
+    destruct ndead; [apply (Hno _ H)|].
     destruct (NAME_MAX <? len nn); [apply (Hno _ H)|].
     destruct (get h src) as [sv|] eqn:Hgs; [|apply (Hno _ H)].
     cbv zeta in H.
